@@ -23,7 +23,7 @@ theorem mpk_only_activated (msk : Msk) (r : Right) (pk : Sk) (h : (r, pk) ∈ ms
   unfold Msk.mpk at h
   simp only [List.mem_filterMap] at h
   obtain ⟨⟨r', chain⟩, hm, hh⟩ := h
-  simp only at hh
+  simp only [mpkEntry] at hh
   cases hc : chain.head? with
   | none => simp [hc] at hh
   | some v =>
